@@ -25,7 +25,8 @@ def harnesses(tier):
             [O.c01_requirements]))
         hs.append(scenario_harness(
             "nested-outcomes",
-            Profile(templates=("N12", "D3"), raises="free", crit_job="free", crit_sched="free", perm="id"),
+            Profile(templates=("N12", "D3", "E3", "E2"), raises="free", crit_job="free", crit_sched="free",
+                    perm="two"),
             [O.c01_requirements]))
     else:
         hs.append(scenario_harness(
